@@ -24,6 +24,7 @@ let run () =
            let obs = List.filter (fun t -> t <> "" && not (String.length t > 5 && String.sub t 0 5 = "used=")) (String.split_on_char ' ' rhs) in
            let p = if period = N0 then n_of_int 1 else period in
            let bound = N.add k p in
+           let ops = if String.length ops > 0 && ops.[0] = 'E' then String.sub ops 1 (String.length ops - 1) else ops in
            let ops = if String.length ops > 0 && ops.[0] = 'A' then String.sub ops 1 (String.length ops - 1) else ops in
            let pre = if String.length ops > 0 && (ops.[0] = 'S' || ops.[0] = 'P') then 1 else 0 in
            let st = ref (Some ((N.add (n_of_string initial) (n_of_int pre), n_of_string c0), ds)) in
